@@ -30,7 +30,8 @@ def configs(tier):
         archs = [(1, 1), (2, 3), (3, 2), (2, 1)]
     else:
         archs = [(nv, nh) for nv in range(1, 6) for nh in range(1, 7)]
-    hist = [{"kind": "complex", "nv": 2, "nh": 1, "grad": "off"}, {"kind": "positive", "nv": 2, "nh": 3, "via": "deepcopy"}, {"kind": "complex", "nv": 2, "nh": 1, "via": "deepcopy"}, {"kind": "complex", "nv": 1, "nh": 1, "via": "pickle"}]
+    hist = [{"kind": "complex", "nv": 2, "nh": 1, "grad": "off"}, {"kind": "positive", "nv": 2, "nh": 3, "via": "deepcopy"}, {"kind": "complex", "nv": 2, "nh": 1, "via": "deepcopy"}, {"kind": "complex", "nv": 1, "nh": 1, "via": "pickle"},
+            {"kind": "positive", "nv": 2, "nh": 2, "params": "require grad"}, {"kind": "complex", "nv": 2, "nh": 1, "params": "require grad"}]
     return [{"kind": k, "nv": nv, "nh": nh} for k in ("positive", "complex") for (nv, nh) in archs] + hist + [{"generic": "every shape"}, {"lean": "size-generic lemmas"}, {"independence": "complex"}]
 
 
@@ -79,6 +80,7 @@ def run_config(ctx, cfg):
     from drivers import common as _DC
     _DC.VIA[0] = cfg.get("via")        # the object under contract is reached as a copy of another one (drivers/common.copied)
     _DC.SYM_ORIG[0] = True
+    st.REQUIRES_GRAD[0] = cfg.get("params") == "require grad"      # parameters as `nn.Parameter(W)` installs them
     from drivers import common as DC
     kind, nv, nh = cfg["kind"], cfg["nv"], cfg["nh"]
     canary = getattr(ctx, "canary", None)
